@@ -386,6 +386,17 @@ def run(ctx):
             # this toolchain encodes a format string as a byte template; a lone `{}` is exactly b"\\xc0\\x00"
             plain = d[1].replace("const ", "") == 'b"\\xc0\\x00"'
     ctx.require(okd and not other_fmt and not specs and len(fa) == 1 and plain, "V4", "display", "the weight is formatted by one plain Display argument of type f64", "the weight is not written with plain `{}` of f64 (display args %d, other %d, spec %d)" % (len(disp), len(other_fmt), len(specs)), loc_str(ww.span))
+    # must-pass-through: the text event of the weight is built only behind the one Display call, and no other call
+    # turns a number into text on the way (a "fast path" that writes `w as i64` saturates at 2^63 and loses -0.0)
+    texts = [t for t in ww.calls() if t.callee and "BytesText::" in t.callee.short]
+    via = True
+    for t in texts:
+        via = via and bool(disp) and t.bb not in ww.reachable_from(0, avoid=tuple(sorted({d_.bb for d_ in disp})))
+    other_txt = [t for t in ww.calls() if t.callee and (t.callee.short.endswith("ToString::to_string") or t.callee.short.endswith("::from_utf8") or "fmt::num::" in t.callee.short
+                                                       or t.callee.short.endswith("String::from") or t.callee.short.endswith("::to_owned") or t.callee.short.endswith("::to_bits"))]
+    ctx.require(bool(texts) and via and not other_txt, "V4", "display-only", "the weight's text event is reachable only through the Display call of the f64, and no other number-to-text conversion occurs in write_edge_weight",
+                "the weight's text can be produced without the plain f64 Display (%s): such a text does not parse back to the same bits for every weight" % (
+                    ", ".join(sorted({t.callee.short.split("::")[-1] + str(t.callee.args) for t in other_txt})) or "a path to BytesText that skips the Display call"), loc_str((other_txt or texts or [ww])[0].span))
     nan = [t for t in ww.calls() if t.callee and t.callee.short.endswith("f64::is_nan")]
     okn = False
     if len(nan) == 1:
